@@ -3,6 +3,8 @@ package main
 import (
 	"encoding/json"
 	"fmt"
+	"math/rand"
+	"strings"
 
 	"github.com/ossrs/go-oryx-lib/rtmp"
 	"verifharness/rp"
@@ -10,8 +12,8 @@ import (
 	"verifharness/transport"
 )
 
-// C01: behaviours of spec/rtmp/RtmpSession.tla replayed into two real rtmp.Protocol
-// endpoints over the in-memory transport, after the real simple handshake.
+// C01: behaviours of spec/rtmp/RtmpSession.tla replayed into two real endpoints (rtmp.Handshake, then
+// rtmp.Protocol on the same connection) over the in-memory transport.
 
 var registry = map[string]rp.Replayer{}
 var batchRegistry = map[string]rp.Batch{}
@@ -25,8 +27,20 @@ type step struct {
 	OutAfter int64     `json:"out_after"`
 }
 
+// entry is one step of the specification's schedule (RtmpSession!sched): a handshake write ("W") or read ("R")
+// of N bytes by endpoint E, or ("m") the N-th session write (Steps[N-1]); C is the specification's byte counter
+// of E that the step advances, after the step: bytes written into its direction (W, m), bytes taken out of the
+// peer's direction (R).
+type entry struct {
+	K string `json:"k"`
+	E string `json:"e"`
+	N int    `json:"n"`
+	C int    `json:"c"`
+}
+
 type sessionCase struct {
-	Steps []step `json:"steps"`
+	Steps []step  `json:"steps"`
+	Sched []entry `json:"sched"`
 }
 
 func (c sessionCase) bytes() int {
@@ -41,24 +55,63 @@ func (c sessionCase) bytes() int {
 	return n
 }
 
+// failure is a mismatch, optionally one the specification knows as a named deviation.
+type failure struct {
+	what      string
+	deviation string
+}
+
+func failf(format string, a ...interface{}) *failure {
+	return &failure{what: fmt.Sprintf(format, a...)}
+}
+
+var hsNames = [3]string{"C0S0", "C1S1", "C2S2"}
+
 // runSession replays one behaviour under one segmentation and one read schedule.
-// lockstep: every write is followed at once by the peer's read; otherwise all writes, then all reads.
-func runSession(c *rp.Ctx, cs sessionCase, seg string, lockstep bool) error {
+// Handshake and session of a direction travel over ONE byte stream (transport.Stream, like a TCP connection): the
+// handshake calls of both endpoints and the session writes are made in the order of the specification's schedule,
+// so a handshake read finds in the transport whatever the peer has written by then - its next handshake packets,
+// its first session messages - and the segmenter alone decides how much of that one transport read returns
+// ("whole": as much as the caller asks for).  The replay is single-threaded: the schedule enables a read only
+// when its bytes have been written, a reader that wants more fails at once (NoBlock).
+// lockstep: every message is read by the peer as soon as it can (after the write, or after the peer's own
+// handshake if that is still going on); otherwise all writes first, then all reads.
+func runSession(c *rp.Ctx, cs sessionCase, seg string, lockstep bool) (res *failure) {
 	a, b := transport.NewPair()
 	a.In.Seg = transport.SegmenterByName(seg, int64(c.Seed)*7919+1)
 	b.In.Seg = transport.SegmenterByName(seg, int64(c.Seed)*7919+2)
-	hsErr := rtmpx.Handshake(a, b, int64(c.Seed))
-	// from here on the replay is single-threaded: whatever a reader needs has been written before
 	a.In.NoBlock, b.In.NoBlock = true, true
-	if err := hsErr; err != nil {
-		return fmt.Errorf("handshake failed: %v", err)
+	conn := map[string]*transport.Duplex{"A": a, "B": b}
+	hs := map[string]*rtmp.Handshake{
+		"A": rtmp.NewHandshake(rand.New(rand.NewSource(int64(c.Seed)))),
+		"B": rtmp.NewHandshake(rand.New(rand.NewSource(int64(c.Seed) + 1))),
 	}
-	if a.Out.Len() != 3073 || b.Out.Len() != 3073 || a.In.Consumed() != 3073 || b.In.Consumed() != 3073 {
-		return fmt.Errorf("handshake moved %d/%d bytes and consumed %d/%d, want 3073 each", a.Out.Len(), b.Out.Len(), a.In.Consumed(), b.In.Consumed())
-	}
-	end := map[string]*rtmp.Protocol{"A": rtmp.NewProtocol(a), "B": rtmp.NewProtocol(b)}
+	nw, nr := map[string]int{}, map[string]int{}
+	c1s1 := map[string][]byte{} // what ReadC1S1 returned: the argument of WriteC2S2
+	end := map[string]*rtmp.Protocol{}
 	peer := map[string]string{"A": "B", "B": "A"}
-	expIn := map[string]int64{"A": 128, "B": 128}
+	done := func(e string) bool { return nw[e] == 3 && nr[e] == 3 }
+	const hsTotal = 1 + 1536 + 1536
+	// what the byte counters of the transport say against the specification's (put, took): explanation of a
+	// later failure, never a verdict of its own
+	var notes []string
+	noteDev := ""
+	note := func(dev, format string, a ...interface{}) {
+		if len(notes) < 3 {
+			notes = append(notes, fmt.Sprintf(format, a...))
+		}
+		if noteDev == "" {
+			noteDev = dev
+		}
+	}
+	defer func() {
+		if res != nil && len(notes) > 0 {
+			res.what += " | before that: " + strings.Join(notes, "; ")
+			if res.deviation == "" {
+				res.deviation = noteDev
+			}
+		}
+	}()
 
 	// every message handed out stays what it was: messages are kept and compared again at the end
 	// (a reader that recycles buffers would change a message the application already holds)
@@ -68,25 +121,39 @@ func runSession(c *rp.Ctx, cs sessionCase, seg string, lockstep bool) error {
 		m *rtmp.Message
 	}
 	var kept []held
-	read := func(k int, s step) error {
+	pending := map[string][]int{} // reader -> indexes of Steps written to it and not yet read
+	read := func(k int, s step) *failure {
 		r := end[peer[s.E]]
 		got, err := r.ReadMessage()
 		if err == nil {
 			kept = append(kept, held{k, s, got})
 		}
 		if err != nil {
-			return fmt.Errorf("step %d: %s reading message id %d (type %d, %d bytes, cut with %d): %v", k, peer[s.E], s.M.ID, s.M.Type, s.M.Len, s.Cs, err)
+			return failf("step %d: %s reading message id %d (type %d, %d bytes, cut with %d): %v", k, peer[s.E], s.M.ID, s.M.Type, s.M.Len, s.Cs, err)
 		}
 		if err := s.M.Same(got, c.Seed); err != nil {
-			return fmt.Errorf("step %d: %s read message id %d (type %d, %d bytes, ts %d, cut with %d): %v", k, peer[s.E], s.M.ID, s.M.Type, s.M.Len, s.M.Ts, s.Cs, err)
+			return failf("step %d: %s read message id %d (type %d, %d bytes, ts %d, cut with %d): %v", k, peer[s.E], s.M.ID, s.M.Type, s.M.Len, s.M.Ts, s.Cs, err)
 		}
-		expIn[peer[s.E]] = s.OutAfter
 		if in, _ := r.VerifChunkSizes(); int64(in) != s.OutAfter {
-			return fmt.Errorf("step %d: %s input chunk size %d after reading, specification says %d", k, peer[s.E], in, s.OutAfter)
+			return failf("step %d: %s input chunk size %d after reading, specification says %d", k, peer[s.E], in, s.OutAfter)
 		}
 		return nil
 	}
-	for k, s := range cs.Steps {
+	drain := func() *failure {
+		for _, e := range []string{"A", "B"} {
+			if !done(e) {
+				continue
+			}
+			for _, k := range pending[e] {
+				if f := read(k, cs.Steps[k]); f != nil {
+					return f
+				}
+			}
+			pending[e] = nil
+		}
+		return nil
+	}
+	write := func(k int, s step) *failure {
 		w := end[s.E]
 		var err error
 		if s.M.Type == 1 && (k+s.M.ID)%2 == 0 {
@@ -98,35 +165,110 @@ func runSession(c *rp.Ctx, cs sessionCase, seg string, lockstep bool) error {
 			err = w.WriteMessage(s.M.Build(c.Seed))
 		}
 		if err != nil {
-			return fmt.Errorf("step %d: %s writing message id %d: %v", k, s.E, s.M.ID, err)
+			return failf("step %d: %s writing message id %d: %v", k, s.E, s.M.ID, err)
 		}
 		if _, out := w.VerifChunkSizes(); int64(out) != s.OutAfter {
-			return fmt.Errorf("step %d: %s output chunk size %d after writing (type %d scs %d), specification says %d", k, s.E, out, s.M.Type, s.M.Scs, s.OutAfter)
+			return failf("step %d: %s output chunk size %d after writing (type %d scs %d), specification says %d", k, s.E, out, s.M.Type, s.M.Scs, s.OutAfter)
+		}
+		pending[peer[s.E]] = append(pending[peer[s.E]], k)
+		return nil
+	}
+
+	for i, x := range cs.Sched {
+		t := conn[x.E]
+		switch x.K {
+		case "W":
+			var err error
+			k := nw[x.E]
+			switch k {
+			case 0:
+				err = hs[x.E].WriteC0S0(t)
+			case 1:
+				err = hs[x.E].WriteC1S1(t)
+			case 2:
+				err = hs[x.E].WriteC2S2(t, c1s1[x.E])
+			default:
+				panic("schedule has a fourth handshake write")
+			}
+			nw[x.E]++
+			if err != nil {
+				return failf("schedule %d: %s Write%s: %v", i, x.E, hsNames[k], err)
+			}
+			if t.Out.Len() != x.C {
+				note("", "schedule %d: %s has written %d bytes after Write%s (%d bytes), specification says %d", i, x.E, t.Out.Len(), hsNames[k], x.N, x.C)
+			}
+		case "R":
+			var err error
+			k := nr[x.E]
+			before, avail := t.In.Consumed(), t.In.Len()-t.In.Consumed()
+			switch k {
+			case 0:
+				_, err = hs[x.E].ReadC0S0(t)
+			case 1:
+				c1s1[x.E], err = hs[x.E].ReadC1S1(t)
+			case 2:
+				_, err = hs[x.E].ReadC2S2(t)
+			default:
+				panic("schedule has a fourth handshake read")
+			}
+			nr[x.E]++
+			if err != nil {
+				return failf("schedule %d: %s Read%s with %d bytes in the transport (%d consumed before): %v", i, x.E, hsNames[k], avail, before, err)
+			}
+			// The specification's reader takes exactly the packet (HsExact).  The verdict stays with the messages: a
+			// handshake that reads ahead inside its own 3073 bytes and keeps them for its next call loses nothing, one
+			// that takes a byte of what follows the handshake has taken it from the session for good (the Protocol is
+			// created on the connection, not on the Handshake) - some message below cannot be read any more, and this
+			// is the explanation that goes with it.
+			if got := t.In.Consumed(); got > hsTotal {
+				note("C01/handshake-overread", "schedule %d: %s Read%s took %d bytes out of the transport (%d of the peer's bytes were there: the %d of the packet and what the peer "+
+					"wrote behind it); the handshake has now consumed %d bytes of the peer's stream, %d more than its %d: session bytes, lost to the Protocol",
+					i, x.E, hsNames[k], got-before, avail, x.N, got, got-hsTotal, hsTotal)
+			} else if got > x.C {
+				note("C01/handshake-overread", "schedule %d: %s Read%s took %d bytes out of the transport, the packet has %d (%d of the peer's bytes were there)", i, x.E, hsNames[k], got-before, x.N, avail)
+			} else if got < x.C {
+				note("", "schedule %d: %s has consumed %d bytes after Read%s, specification says %d", i, x.E, got, hsNames[k], x.C)
+			}
+		case "m":
+			if x.N < 1 || x.N > len(cs.Steps) || cs.Steps[x.N-1].E != x.E {
+				panic(fmt.Sprintf("schedule %d does not fit the steps", i))
+			}
+			if !done(x.E) {
+				panic(fmt.Sprintf("schedule %d: session write before the writer's handshake is complete", i))
+			}
+			if f := write(x.N-1, cs.Steps[x.N-1]); f != nil {
+				return f
+			}
+		default:
+			panic("unknown schedule entry " + x.K)
+		}
+		if done(x.E) && end[x.E] == nil {
+			// the application goes on with the session on the same connection
+			end[x.E] = rtmp.NewProtocol(t)
 		}
 		if lockstep {
-			if err := read(k, s); err != nil {
-				return err
+			if f := drain(); f != nil {
+				return f
 			}
 		}
 	}
-	if !lockstep {
-		for k, s := range cs.Steps {
-			if err := read(k, s); err != nil {
-				return err
-			}
-		}
+	if !done("A") || !done("B") {
+		panic("schedule ends before both handshakes are complete")
+	}
+	if f := drain(); f != nil {
+		return f
+	}
+	if len(kept) != len(cs.Steps) {
+		panic(fmt.Sprintf("%d of %d messages read", len(kept), len(cs.Steps)))
 	}
 	for _, h := range kept {
 		if err := h.s.M.Same(h.m, c.Seed); err != nil {
-			return fmt.Errorf("step %d: the message id %d that %s had read changed after later reads: %v", h.k, h.s.M.ID, peer[h.s.E], err)
+			return failf("step %d: the message id %d that %s had read changed after later reads: %v", h.k, h.s.M.ID, peer[h.s.E], err)
 		}
 	}
-	// nothing may be left over or fabricated: both directions are drained exactly
-	if a.In.Consumed() != b.Out.Len() || b.In.Consumed() != a.Out.Len() {
-		// bufio may have read ahead, but never beyond what was written; what matters is that every byte written was needed
-		if a.In.Consumed() > b.Out.Len() || b.In.Consumed() > a.Out.Len() {
-			return fmt.Errorf("reader consumed more than was written")
-		}
+	// nothing may be fabricated: a reader never has more than was written
+	if a.In.Consumed() > b.Out.Len() || b.In.Consumed() > a.Out.Len() {
+		return failf("reader consumed more than was written")
 	}
 	return nil
 }
@@ -136,6 +278,9 @@ func init() {
 		var cs sessionCase
 		if err := json.Unmarshal(raw, &cs); err != nil {
 			panic(err)
+		}
+		if len(cs.Sched) < 12+len(cs.Steps) {
+			panic("case without a complete schedule")
 		}
 		n := cs.bytes()
 		i = rp.ContentHash(raw) // per-case choices derive from the content, so the case replays alone identically
@@ -151,8 +296,8 @@ func init() {
 			modes = append(modes, mode{"one", i%2 == 1})
 		}
 		for _, m := range modes {
-			if err := runSession(c, cs, m.seg, m.lockstep); err != nil {
-				return rp.Result{OK: false, What: fmt.Sprintf("[segmentation %s, lockstep %v] %v", m.seg, m.lockstep, err)}
+			if f := runSession(c, cs, m.seg, m.lockstep); f != nil {
+				return rp.Result{OK: false, What: fmt.Sprintf("[segmentation %s, lockstep %v] %s", m.seg, m.lockstep, f.what), Deviation: f.deviation}
 			}
 		}
 		return rp.Result{OK: true}
